@@ -236,28 +236,27 @@ type pipeTxn struct {
 	Rewrote   map[string]bool // its effective recipient set differs from {itself}
 	Effective map[string]bool // every address a target saw
 	Calls     []call
-	// Entangled: client-supplied recipients one of whose effective recipients
-	// was handed to a target on behalf of a DIFFERENT client-supplied address of
-	// the same transaction too (genuine N-to-1 collision; witness only).
+	// Entangled: client-supplied recipients that share an address at some level
+	// (outer final address, intermediate or delivered; effective address inside
+	// the reroute) with a DIFFERENT client-supplied recipient of the same
+	// transaction (genuine N-to-1 collision; witness only).
 	Entangled map[string]bool
 	// FailedClean: accepted AND a failing effective recipient is attributable
-	// to this client-supplied address alone (the judged part of Failed).
-	FailedClean map[string]bool
-	// FailedNested: failing only through a nested pipeline in a chain
-	// constellation (double translation); judged only with JudgeNested.
-	FailedNested map[string]bool
+	// to this client-supplied address alone (the judged part of Failed);
+	// FailedCleanTop: ... and not only through the nested pipeline.
+	FailedClean    map[string]bool
+	FailedCleanTop map[string]bool
 	// Chained: the client-supplied address is itself a possible rewrite output.
-	Chained     map[string]bool
+	Chained map[string]bool
+	// JudgeNested false: chained recipients failing only inside the nested
+	// pipeline are counted instead of judged (debug switch).
 	JudgeNested bool
-	// Excused: keys that may be the nested pipeline's own client address in a
-	// collision / nested-chain transaction (not judged as foreign; see runPipe).
-	Excused map[string]bool
 }
 
 // judgePipe applies the second sentence of the statement: every key is an
 // address the client supplied; every accepted client-supplied recipient whose
 // delivery failed has a failure under its own address.
-func judgePipe(t *pipeTxn) (out []finding, unjudgedCollision, unjudgedNested, excusedKeys int) {
+func judgePipe(t *pipeTxn) (out []finding, unjudgedCollision, unjudgedNested int) {
 	supplied := map[string]bool{}
 	for _, s := range t.Supplied {
 		supplied[s] = true
@@ -277,10 +276,6 @@ func judgePipe(t *pipeTxn) (out []finding, unjudgedCollision, unjudgedNested, ex
 	sort.Strings(keys)
 	for _, k := range keys {
 		if supplied[k] {
-			continue
-		}
-		if t.Excused[k] {
-			excusedKeys++
 			continue
 		}
 		cause := "other"
@@ -309,14 +304,14 @@ func judgePipe(t *pipeTxn) (out []finding, unjudgedCollision, unjudgedNested, ex
 			cls = "rewritten"
 		}
 		if !t.FailedClean[a] {
-			if t.FailedNested[a] {
-				if !t.JudgeNested {
-					unjudgedNested++
-					continue
-				}
-				cls = "nested-double-translation"
-			} else {
-				unjudgedCollision++
+			unjudgedCollision++
+			continue
+		}
+		if t.Chained[a] && !t.FailedCleanTop[a] {
+			// the constellation the shared reverse map used to get wrong
+			cls = "nested-double-translation"
+			if !t.JudgeNested {
+				unjudgedNested++
 				continue
 			}
 		}
@@ -325,5 +320,5 @@ func judgePipe(t *pipeTxn) (out []finding, unjudgedCollision, unjudgedNested, ex
 			What: fmt.Sprintf("client-supplied recipient %q was accepted, delivery of (one of) its effective recipient(s) failed at a target, but no failure was reported under %q", a, a),
 		})
 	}
-	return out, unjudgedCollision, unjudgedNested, excusedKeys
+	return out, unjudgedCollision, unjudgedNested
 }
